@@ -40,7 +40,7 @@ pub fn eliminate_unused_in_block(
     });
 }
 
-fn eliminate_unused_in_stmt(
+pub(super) fn eliminate_unused_in_stmt(
     stmt: &mut TypedStmt,
     used_vars: &HashSet<String>,
     stats: &mut OptimizationStats,
